@@ -552,19 +552,20 @@ def run_e1(prop, tier, seed, modules, rule, bounds, assumptions, need_stubbing=F
         if old.startswith(f'{tag}_{tier}_') and os.path.isdir(os.path.join(WORK, old)):
             shutil.rmtree(os.path.join(WORK, old), ignore_errors=True)
     os.makedirs(d)
-    target_dir = os.path.join(WORK, 'target-kani-' + tag)
+    target_dir = os.path.join(WORK, 'target-kani')
+    crate = 'hc_' + re.sub(r'\W', '_', tag)
     log = os.path.join(WORK, f'{tag}_{tier}.log')
     if os.path.exists(log):
         os.remove(log)
     rr = os.path.join(VERIF, 'replays', prop)
     if os.path.exists(rr):
         shutil.rmtree(rr)
-    write_crate(d, modules, 'hc', features=features, lib_attrs=lib_attrs)
+    write_crate(d, modules, crate, features=features, lib_attrs=lib_attrs)
     extra = dict(extra or {})
     if validate_stub:
         sd = d + '_stub'
         shutil.rmtree(sd, ignore_errors=True)
-        write_crate(sd, [], 'hc', features=features, lib_attrs=lib_attrs)
+        write_crate(sd, [], crate, features=features, lib_attrs=lib_attrs)
         n, err = stubcheck(sd)
         shutil.rmtree(sd, ignore_errors=True)
         if not n:
